@@ -13,7 +13,7 @@ PROP = dict(
     assumptions=["single node; timestamps at whole hours 2016-2022", "views are read directly (field level) or through Row/Row(from,to) with explicit aligned bounds (API level)"],
     tags=["gt"],
     units=[
-        U("field", ".", "^TestVerifC19_FieldClear$", 1200, 10000, sq=4, sth=10),
+        U("field", ".", "^TestVerifC19_FieldClear$", 1000, 10000, sq=4, sth=10),
         U("api", "./server", "^(TestVerifC19_API|TestVerifWitness_(D22|DT1)_API)$", 240, 1500, sq=4, sth=10),
     ],
 )
